@@ -372,7 +372,12 @@ def onObs (m : Mon) (label : String) (ok : Bool) (membership : Bool) (prev : Opt
              | none => ["C08.no-hand-opened-although-two-seated-in-players-have-chips"])
           else []
         let v7 := if o.gameCount == p.gameCount then [] else ["C07.game-count-changed-without-an-open"]
-        ({ m with flagsClean := false }, v8 ++ v7)
+        -- an attempt that did not open leaves the life-cycle fields alone (openGame works on a clone and hands back the
+        -- old table on every refusal)
+        let v7b := if o.status == p.status && o.hasGame == p.hasGame && o.gidx == p.gidx &&
+                      o.players.map (fun q => (q.id, q.participated)) == p.players.map (fun q => (q.id, q.participated)) then []
+                   else ["C07.attempt-that-did-not-open-changed-the-table"]
+        ({ m with flagsClean := false }, v8 ++ v7 ++ v7b)
     else if label == "settle" then
       match prev, m.openObs with
       | some p, some oo =>
